@@ -50,6 +50,28 @@ Theorem C08_attribution : forall c l b,
 Proof. exact single_attribution. Qed.
 Print Assumptions C08_attribution.
 
+(** (round 5) the verdict is the comparator's own, whole.  Whatever shape of result the comparator returns - any
+    status or a value that is no status, any message (none, text, structured), with or without a diff, a plain
+    ComparatorResult or an instance of a subclass - the comparison of that recording carries the comparator's
+    status, ITS diff and ITS class when the framework can render the verdict in its log line, and is a framework
+    failure of that recording (nothing attached) when it cannot. *)
+Theorem C08_verdict_is_the_comparators : forall c l v,
+  let x := single c (l, BReturns v) in
+  label x = l /\
+  (renderable v = true ->
+     (forall s, vs_status v = VEnum s -> verdict x = s) /\
+     vdiff x = (if vs_diff v then Some l else None) /\ vsub x = vs_sub v /\ attached x = Some l) /\
+  (renderable v = false ->
+     verdict x = EqualizerFailure /\ message x = MRender /\ vdiff x = None /\ vsub x = false /\ attached x = None).
+Proof. exact verdict_is_the_comparators. Qed.
+Print Assumptions C08_verdict_is_the_comparators.
+
+(** the diff attached to a recording's verdict is its own, or none - every behaviour *)
+Theorem C08_diff_attribution : forall c l b,
+  vdiff (single c (l, b)) = None \/ vdiff (single c (l, b)) = Some l.
+Proof. exact single_diff_attribution. Qed.
+Print Assumptions C08_diff_attribution.
+
 (** in-process and dedicated-process execution yield the same comparisons (scripts whose behaviours do not
     depend on there being a worker process: no exit, hang, late / lost answer, early death, and slow replays
     only within the timeout) *)
@@ -66,11 +88,11 @@ Theorem C08_late_answer_refuted :
   let c := cfg_legacy 5 2 in
   let s := [(1, BEqual); (2, BAnswersLate); (3, BEqual); (4, BDifferent)] in
   exists s1, run_dedicated c s =
-    ([Cmp 1 Equal MCmp (Some 1) false false TFalse TFalse;
-      Cmp 2 EqualizerFailure MTimeout None false false TFalse TFalse;
-      Cmp 3 Equal MCmp (Some 2) false false TFalse TFalse;
-      Cmp 4 Equal MCmp (Some 3) false false TFalse TFalse], Completed, s1)
-    /\ single c (4, BDifferent) = Cmp 4 Different MCmp (Some 4) false false TFalse TFalse
+    ([Cmp 1 Equal MCmp (Some 1) false false TFalse TFalse None false;
+      Cmp 2 EqualizerFailure MTimeout None false false TFalse TFalse None false;
+      Cmp 3 Equal MCmp (Some 2) false false TFalse TFalse None false;
+      Cmp 4 Equal MCmp (Some 3) false false TFalse TFalse None false], Completed, s1)
+    /\ single c (4, BDifferent) = Cmp 4 Different MCmp (Some 4) false false TFalse TFalse None false
     /\ length (results (sh s1)) = 1.
 Proof. exact late_answer_witness. Qed.
 Print Assumptions C08_late_answer_refuted.
@@ -81,10 +103,10 @@ Theorem C08_stale_task_refuted :
   let c := cfg_legacy 5 2 in
   let s := [(1, BEqual); (2, BDiesBefore); (3, BEqual); (4, BDifferent)] in
   exists s1, run_dedicated c s =
-    ([Cmp 1 Equal MCmp (Some 1) false false TFalse TFalse;
-      Cmp 2 EqualizerFailure MDied None false false TFalse TFalse;
-      Cmp 3 Equal MCmp (Some 2) false false TFalse TFalse;
-      Cmp 4 Equal MCmp (Some 3) false false TFalse TFalse], Completed, s1)
+    ([Cmp 1 Equal MCmp (Some 1) false false TFalse TFalse None false;
+      Cmp 2 EqualizerFailure MDied None false false TFalse TFalse None false;
+      Cmp 3 Equal MCmp (Some 2) false false TFalse TFalse None false;
+      Cmp 4 Equal MCmp (Some 3) false false TFalse TFalse None false], Completed, s1)
     /\ length (results (sh s1)) = 1.
 Proof. exact stale_task_witness. Qed.
 Print Assumptions C08_stale_task_refuted.
@@ -96,7 +118,7 @@ Theorem C08_lock_held_refuted :
   let c := cfg_legacy 5 2 in
   let s := [(1, BEqual); (2, BDrops); (3, BEqual); (4, BDifferent)] in
   exists s1, run_dedicated c s =
-    ([Cmp 1 Equal MCmp (Some 1) false false TFalse TFalse;
+    ([Cmp 1 Equal MCmp (Some 1) false false TFalse TFalse None false;
       failure_cmp 2 MTimeout; failure_cmp 3 MTimeout; failure_cmp 4 MTimeout], Completed, s1)
     /\ rlock (sh s1) = true /\ length (tasks (sh s1)) = 2.
 Proof. exact lock_held_witness. Qed.
@@ -123,13 +145,30 @@ Proof. exact demo_run. Qed.
 Example C08_demo_neutral : forallb (fun x => neutral demo_cfg (snd x)) demo_neutral = true.
 Proof. exact demo_neutral_ok. Qed.
 
+(** (round 5) verdict shapes are clean, mode-neutral behaviours: a script mixing a full result with a diff, a
+    structured message the framework cannot render, a subclass instance with a diff, a bare value that is no status
+    and a falsy non-text message yields, in BOTH modes, each recording's own whole verdict; the two unrenderable
+    ones cost only their own recording *)
+Example C08_verdict_shapes_demo :
+  forallb (fun x => neutral demo_cfg (snd x)) demo_shapes = true /\
+  fst (run_dedicated demo_cfg demo_shapes) = (map (single demo_cfg) demo_shapes, Completed) /\
+  run_inproc (keep demo_cfg) demo_shapes = (map (single demo_cfg) demo_shapes, Completed) /\
+  map (fun v => (verdict v, message v, vdiff v, vsub v)) (map (single demo_cfg) demo_shapes) =
+    [(Different, MCmp, Some 1, false); (EqualizerFailure, MRender, None, false); (Equal, MCmp, None, false);
+     (Failed, MCmp, Some 4, true); (EqualizerFailure, MRender, None, false); (Fixed, MFalsy, None, true);
+     (Different, MCmp, None, false)].
+Proof. exact demo_shapes_run. Qed.
+
 (** ---- non-vacuity per theorem (wp-audit) ---- *)
 (** C08_fault_is_failure: every kind of fault meets the premise under [demo_cfg] (timeout 2 s), a slow answer
     within the timeout does not *)
 Example C08_fault_is_failure_nonvacuous :
   forallb (is_fault demo_cfg) [BPlayerRaises; BExtractorRaises; BComparatorRaises; BExits; BHangs; BAnswersLate;
-                               BDrops; BDiesBefore; BSlow 4; BBadAnswer Unloadable; BBadAnswer Refused] = true /\
-  is_fault demo_cfg (BSlow 3) = false /\ is_fault demo_cfg BDifferent = false.
+                               BDrops; BDiesBefore; BSlow 4; BBadAnswer Unloadable; BBadAnswer Refused;
+                               BReturns (VShape (VEnum Different) VStruct true false);
+                               BReturns (VShape VForeign VNone false false)] = true /\
+  is_fault demo_cfg (BSlow 3) = false /\ is_fault demo_cfg BDifferent = false /\
+  is_fault demo_cfg (BReturns (VShape (VEnum Different) VText true true)) = false.
 Proof. repeat split. Qed.
 
 (** C08_failure_is_local_with_fresh_queues: a configuration with the repair switched on, run on the script of the
